@@ -22,8 +22,13 @@ import (
 func main() {
 	repo := flag.String("repo", "", "scratch copy of the repository (modified in place)")
 	suffix := flag.String("suffix", "Rn", "suffix appended to every local name")
+	shapeKinds := flag.String("shape", "", "instead of renaming: reshape the sources, comma separated kinds of eq,else,msg,inc (see shape.go)")
 	flag.Parse()
 	mods := flag.Args()
+	if *shapeKinds != "" && *repo != "" && len(mods) > 0 {
+		shape(*repo, mods, *shapeKinds)
+		return
+	}
 	if *repo == "" || len(mods) == 0 {
 		fmt.Fprintln(os.Stderr, "usage: renamer -repo DIR module-dir...")
 		os.Exit(2)
